@@ -54,17 +54,14 @@ def Expected.routes : Routes :=
         "if _, err := io.Copy(dst, r.Body); err != nil {",
         "http.Error(w, fmt.Sprintf(\"…\", err), http.StatusInternalServerError)",
         "if err := dst.Close(); err != nil {",
-        "log.Printf(\"…\", err)",
         "}",
         "if err := os.Remove(fullFilename); err != nil {",
-        "log.Printf(\"…\", err)",
         "}",
         "return",
         "}",
         "if err := dst.Close(); err != nil {",
         "http.Error(w, fmt.Sprintf(\"…\", err), http.StatusInternalServerError)",
         "if err := os.Remove(fullFilename); err != nil {",
-        "log.Printf(\"…\", err)",
         "}",
         "return",
         "}",
@@ -98,14 +95,11 @@ def Expected.routes : Routes :=
     copyFailPath := [
       "http.Error(http.StatusInternalServerError)",
       "dst.Close",
-      "log.Printf",
       "os.Remove(fullFilename)",
-      "log.Printf",
       "return"],
     closeFailPath := [
       "http.Error(http.StatusInternalServerError)",
       "os.Remove(fullFilename)",
-      "log.Printf",
       "return"],
     facts := { upGuard := true, upCreate := true, upExcl := true, upTrunc := false,
                upRemoveOnCopyFail := true, upImports := 1, downGuard := true } }
